@@ -514,6 +514,7 @@ struct Shard {
     journal: std::fs::File,
     findings: Vec<serde_json::Value>,
     counter: u64,
+    samples: Vec<serde_json::Value>,
 }
 
 impl Shard {
@@ -531,6 +532,9 @@ impl Shard {
         let o = execute(seq, &self.xdg, self.profiles);
         if mine {
             SEQS.fetch_add(1, Ordering::Relaxed);
+            if seq.len() == self.depth && self.samples.len() < 3 && seq.iter().any(|a| matches!(a, Act::Read(_))) {
+                self.samples.push(serde_json::json!({"sequence": seq.iter().map(act_name).collect::<Vec<_>>(), "c_calls": o.calls, "strings_checked": o.strings}));
+            }
             CALLS.fetch_add(o.calls, Ordering::Relaxed);
             STRINGS.fetch_add(o.strings, Ordering::Relaxed);
             let mut problems = o.problems.clone();
@@ -578,12 +582,13 @@ fn run_shard(depth: usize, k: usize, n: usize, dir: &str) -> i32 {
         }
         let _ = execute(&warm, &xdg, 4);
     }
-    let mut sh = Shard { k, n, depth, profiles: 4, xdg, journal, findings: vec![], counter: 0 };
+    let mut sh = Shard { k, n, depth, profiles: 4, xdg, journal, findings: vec![], counter: 0, samples: vec![] };
     let mut seq = vec![];
     sh.visit(&mut seq);
     let out = serde_json::json!({
         "shard": k, "sequences": SEQS.load(Ordering::Relaxed), "calls": CALLS.load(Ordering::Relaxed), "strings": STRINGS.load(Ordering::Relaxed),
         "findings": sh.findings,
+        "samples": sh.samples,
     });
     std::fs::write(format!("{}/result-{}.json", dir, k), out.to_string()).unwrap();
     0
